@@ -1732,12 +1732,41 @@ fn gen_char(rng: &mut Rng, info: &FontInfo) -> u32 {
 }
 
 fn gen_text(rng: &mut Rng, info: &FontInfo) -> String {
+    // Rarely: a long run made of a short pattern (syllable machines, reordering and mark
+    // attachment see thousands of clusters, or one cluster thousands of characters long).
+    if rng.below(1000) < 2 {
+        let unit_len = 1 + rng.usize_below(4);
+        let unit = gen_text_short(rng, info, unit_len);
+        if !unit.is_empty() {
+            let total = *rng.pick(&[300usize, 1000, 3000, 8000]);
+            let mut s = String::new();
+            if rng.pct(30) {
+                // one base followed by many repetitions of the rest
+                let mut it = unit.chars();
+                s.push(it.next().unwrap());
+                let rest: String = it.collect();
+                let rest = if rest.is_empty() { unit.clone() } else { rest };
+                while s.chars().count() < total {
+                    s.push_str(&rest);
+                }
+            } else {
+                while s.chars().count() < total {
+                    s.push_str(&unit);
+                }
+            }
+            return s;
+        }
+    }
     let len = match rng.below(10) {
         0 => 0,
         1 => 1,
         2 => 2,
         _ => 1 + rng.usize_below(16),
     };
+    gen_text_short(rng, info, len)
+}
+
+fn gen_text_short(rng: &mut Rng, info: &FontInfo, len: usize) -> String {
     let mut s = String::new();
     // Neighbourhood bias: stay near a pivot char so that sequences are same-script.
     let pivot = gen_char(rng, info);
